@@ -86,6 +86,9 @@ class DirectedGraph:
         if target_index not in source_targets_list:
             source_targets_list.append(target_index)
 
+    def has_edge(self, source, target):
+        return self.nodes.index(target) in self.edges_dict[self.nodes.index(source)]
+
     def get_topological_order(self):
         exploring = [False] * len(self.nodes)
         visited = [False] * len(self.nodes)
@@ -423,15 +426,13 @@ class ActionLink(Action):
                 targets.add(target)
 
             # Add instantiation target prefixes as edges
-            targets = sorted(targets, key=lambda x: len(split_key(x)))
-            seen_targets = {targets[0]}
-            for target in targets[1:]:
+            nodes = set(graph.nodes)
+            for target in sorted(targets, key=lambda x: len(split_key(x))):
                 parts = [x.replace("|", ".") for x in target.replace("init_args.", "init_args|").split(".")]
                 for num in range(len(parts) - 1):
                     target_prefix = ".".join(parts[: num + 1])
-                    if target_prefix in seen_targets:
+                    if target_prefix in nodes and not graph.has_edge(target_prefix, target):
                         graph.add_edge(target, target_prefix)
-                seen_targets.add(target)
 
             return graph.get_topological_order()
         return []
